@@ -68,8 +68,8 @@ def check(ctx, run):
     run.rule("R5", "layout: the aligned size is a multiple of sizeof(void*), at least size + guard bytes, for every residue and at the 2^32 / 2^63 boundaries; the allocation and reallocation paths folded over a heap model place guard bytes and record inside the requested block without overlap; lookup offset = placement offset", floor=40, exhaustive=True)
     run.rule("R6", "calloc zero-fills exactly the product under a null test; strdup_alloc copies size bytes into a size-byte block and terminates at size-1 with size >= 1", floor=5)
 
-    INL = {DET + "::allocateMemoryWithAccountingInformation", DET + "::reallocateMemoryWithAccountingInformation", DET + "::sizeOfMemoryWithCorruptionInfo",
-           "calculateVoidPointerAlignedSize", DET + "::sizeWithAccountingInformationOverflows", DET + "::reallocateMemoryAndLeakInformation"}
+    # every member of the detector (and the file-static size helper) is transparent to the folds: helpers may come and go
+    INL = ({g.qn for g in prog.functions.values() if g.qn.startswith(DET + "::")} | {"calculateVoidPointerAlignedSize"})
     am = [f for f in prog.fns(DET + "::allocMemory") if len(f.params) == 5][0]
     rm = prog.fn(DET + "::reallocMemory")
     run.analysed(am)
@@ -194,7 +194,14 @@ def check(ctx, run):
             DET + "::addMemoryCorruptionInformation": h("guard", 0), DET + "::checkForCorruption": h("check", 0)})
         ev.heap_mode = True
         ev.inline = DINL - set(ev.calls)
-        ev.run_blocks(f.entry, max_steps=3000)
+        try:
+            ev.run_blocks(f.entry, max_steps=3000)
+        except Unknown:
+            if not getattr(ev, "null_derefs", None):
+                raise
+        nd = getattr(ev, "null_derefs", None)
+        if nd:
+            raise Unknown("null dereference: %s" % nd[0])
         r = getattr(ev, "ret", None)
         if isinstance(r, tuple):
             raise Unknown(str(r))
@@ -281,15 +288,14 @@ def check(ctx, run):
 
     # ---------------- R2 ----------------------------------------------------
     targets = [("strdup_alloc", ("cpputest_malloc_location",)), ("cpputest_calloc_location", ("cpputest_malloc_location",)),
-               (am.qn, ("allocateMemoryWithAccountingInformation", "createMemoryLeakAccountingInformation")),
-               (DET + "::reallocateMemoryAndLeakInformation", ("reallocateMemoryWithAccountingInformation", "createMemoryLeakAccountingInformation"))]
+               (am.qn, ("allocateMemoryWithAccountingInformation", "createMemoryLeakAccountingInformation"))]
     for qn, allocs in targets:
         f = am if qn == am.qn else prog.fn(qn)
         run.analysed(f)
         for inst, ok, wit, why in null_checked_uses(prog, f, allocs):
             run.ob("R2", "%s: %s" % (f.name, inst), f.site, ok, witness=wit, what=why)
     # the record pointer handed to storeLeakInformation in the separate layout comes from allocMemoryLeakNode, which may return NULL
-    for f in (am, prog.fn(DET + "::reallocateMemoryAndLeakInformation")):
+    for f in (am,):
         for c in f.calls():
             if (prog.callee_name(f, c) or "").endswith("storeLeakInformation"):
                 a0 = render(f, f.args(c)[0])
@@ -298,28 +304,43 @@ def check(ctx, run):
                 ok = (a0, True) in held
                 run.ob("R2", "%s: record pointer %s is known non-null where storeLeakInformation dereferences it" % (f.name, a0), f.site, ok, witness=sorted("%s%s" % ("" if v else "!", k) for k, v in held),
                        what="" if ok else "with separately allocated records allocMemoryLeakNode may return NULL and the record is initialised through it")
+    # the reallocation path, whichever helpers it is spread over: reallocMemory folded with each allocation failing in turn
+    for sep in (0, 1):
+        try:
+            r, seq, heap = fold_layout(rm, 13, sep, True, mem_result=0)
+            ok = r == 0 and not [k for k, a_ in seq if k in ("add", "guard")] and not heap
+            why = "" if ok else "returns %s after %s" % (r, [k for k, a_ in seq])
+        except Unknown as u:
+            if "null dereference" not in str(u):
+                raise AnalysisBroken("C05.R2: reallocMemory cannot be folded with a failing platform realloc: %s" % u)
+            ok, why, seq = False, str(u), []
+        run.ob("R2", "reallocMemory folded with a failing platform realloc (%s record): NULL is returned, nothing is written through it" % ("separate" if sep else "inline"), rm.site, ok, witness=[k for k, a_ in seq], what=why)
+    try:
+        r, seq, heap = fold_layout(rm, 13, 1, True, node_result=0)
+        ok, why = r == 0 and not [k for k, a_ in seq if k in ("add", "guard")], ""
+        if not ok:
+            why = "with a NULL record the block is still entered or guarded: %s" % [k for k, a_ in seq]
+    except Unknown as u:
+        if "null dereference" not in str(u):
+            raise AnalysisBroken("C05.R2: reallocMemory cannot be folded with a failing record allocation: %s" % u)
+        ok, why, seq = False, "with separately allocated records allocMemoryLeakNode may return NULL and the record is used without a null test (%s)" % u, []
+    run.ob("R2", "reallocMemory folded with a failing record allocation (separate layout): nothing is dereferenced through the NULL record", rm.site, ok, witness=why or [k for k, a_ in seq], what=why)
 
     # ---------------- R3 ----------------------------------------------------
-    ra = prog.fn(DET + "::reallocateMemoryAndLeakInformation")
-    null_paths = []
-    for p in enumerate_paths(ra, inline=None):
-        v = p.val()
-        if v.get("new_memory") is False or v.get("(NULL == new_memory)") is True:
-            names = [(prog.callee_name(ra, c) or "").split("::")[-1] for c in path_calls(prog, ra, p)]
-            null_paths.append(names)
-    removed_before = False
-    readded = False
-    for p in enumerate_paths(rm, inline=None):     # reallocMemory's own calls: the callee's failing path is judged separately above
-        names = [(prog.callee_name(rm, c) or "").split("::")[-1] for c in path_calls(prog, rm, p)]
-        if "removeNode" in names and "reallocateMemoryAndLeakInformation" in names and names.index("removeNode") < names.index("reallocateMemoryAndLeakInformation"):
-            removed_before = True
-        if "addNewNode" in names or "storeLeakInformation" in names:
-            readded = True
-    fails_clean = bool(null_paths) and all("storeLeakInformation" not in n and "addNewNode" not in n for n in null_paths)
-    ok = not (removed_before and fails_clean and not readded)
-    run.ob("R3", "a failing platform realloc leaves the old block tracked", rm.site, ok,
-           witness={"record removed before the realloc attempt": removed_before, "NULL path of reallocateMemoryAndLeakInformation calls": null_paths, "re-inserted in reallocMemory": readded},
-           what="" if ok else "reallocMemory removes the block's record (and may free a separate record) before PlatformSpecificRealloc is attempted; when it returns NULL the old block is still allocated but no longer tracked")
+    untracked, wit = False, {}
+    for sep in (0, 1):
+        try:
+            r, seq, heap = fold_layout(rm, 13, sep, True, mem_result=0)
+            kinds = [k for k, a_ in seq]
+        except Unknown as u:
+            if "null dereference" in str(u):
+                continue            # reported under R2
+            raise AnalysisBroken("C05.R3: reallocMemory cannot be folded with a failing platform realloc: %s" % u)
+        wit["separate" if sep else "inline"] = kinds
+        if "remove" in kinds and "realloc" in kinds and kinds.index("remove") < kinds.index("realloc") and "add" not in kinds[kinds.index("realloc"):]:
+            untracked = True
+    run.ob("R3", "a failing platform realloc leaves the old block tracked", rm.site, not untracked, witness=wit,
+           what="" if not untracked else "reallocMemory removes the block's record (and may free a separate record) before PlatformSpecificRealloc is attempted; when it returns NULL the old block is still allocated but no longer tracked")
 
     # a request the detector itself rejects (size arithmetic would overflow) must not have touched the live block's record
     for sep in (0, 1):
